@@ -8,7 +8,7 @@
  * first operation = a new accepted connection); callback behaviour is an obligation
  * constant: CLOSED_RETRY (connection_closed returns non-zero the first time),
  * CREATED_DISC (connection_created disconnects the connection), MSG_DISC (msg_process
- * disconnects).  CBMC's pointer checks decide use-after-free / double free on the real
+ * disconnects), DESTROYED_ITER (connection_destroyed walks the connection list).  CBMC's pointer checks decide use-after-free / double free on the real
  * free(c) / free(s); the monitor decides the callback order.
  */
 #include "os_base.h"
@@ -89,6 +89,23 @@ static int app_refs[MAXC];
 static int svc_destroyed;
 static int id_of(struct qb_ipcs_connection *c) { for (int i = 0; i < MAXC; i++) if (conn[i] == c) return i; return -1; }
 static int accept_verdict;
+#ifndef DESTROYED_ITER
+#define DESTROYED_ITER 0
+#endif
+static struct qb_ipcs_service *svc;
+/* walk the connection list the documented way (first_get / next_get, dropping the reference each call hands out) */
+static void iterate_list(void)
+{
+	if (svc_destroyed) return;
+	struct qb_ipcs_connection *c = qb_ipcs_connection_first_get(svc);
+	for (int n = 0; n < MAXC + 1 && c; n++) {
+		int i = id_of(c);
+		PROP(i >= 0 && !st_destroyed[i], "list iteration only returns connections whose destroyed callback has not run");
+		struct qb_ipcs_connection *nx = qb_ipcs_connection_next_get(svc, c);
+		qb_ipcs_connection_unref(c);
+		c = nx;
+	}
+}
 
 static int32_t s_accept(qb_ipcs_connection_t *c, uid_t u, gid_t g)
 {
@@ -141,6 +158,9 @@ static void s_destroyed(qb_ipcs_connection_t *c)
 	PROP(app_refs[i] == 0, "destroyed only after every application reference was dropped");
 	PROP(!st_created[i] || st_closed_done[i] || 1, "(closed precedes destroyed when created was reported)");
 	st_destroyed[i]++;
+#if DESTROYED_ITER
+	iterate_list();          /* e.g. an application counting the remaining clients when one goes away */
+#endif
 }
 static int32_t t_connect(struct qb_ipcs_service *s, struct qb_ipcs_connection *c, struct qb_ipc_connection_response *r) { (void)s; (void)c; (void)r; return 0; }
 static void t_disconnect(struct qb_ipcs_connection *c) { (void)c; }
@@ -162,7 +182,6 @@ static qb_loop_job_dispatch_fn job_fn[MAXJOBS]; static void *job_data[MAXJOBS]; 
 static int32_t p_job_add(enum qb_loop_priority p, void *data, qb_loop_job_dispatch_fn fn)
 { (void)p; PROP(job_tail_i < MAXJOBS, "harness: job queue large enough"); if (job_tail_i < MAXJOBS) { job_fn[job_tail_i] = fn; job_data[job_tail_i] = data; job_tail_i++; } return 0; }
 
-static struct qb_ipcs_service *svc;
 static void new_connection(int verdict)
 {
 	if (svc_destroyed || nconn >= MAXC) return;
@@ -212,16 +231,7 @@ static void do_op(int kind)
 	case 4: if (usable(0)) { qb_ipcs_connection_ref(conn[0]); app_refs[0]++; } break;
 	case 5: if (app_refs[0] > 0) { app_refs[0]--; qb_ipcs_connection_unref(conn[0]); } break;
 	case 6: if (job_head_i < job_tail_i) { qb_loop_job_dispatch_fn f = job_fn[job_head_i]; void *d = job_data[job_head_i]; job_head_i++; f(d); } break;
-	case 7:
-		if (!svc_destroyed) {
-			struct qb_ipcs_connection *c = qb_ipcs_connection_first_get(svc);
-			for (int n = 0; n < MAXC + 1 && c; n++) {
-				struct qb_ipcs_connection *nx = qb_ipcs_connection_next_get(svc, c);
-				qb_ipcs_connection_unref(c);
-				c = nx;
-			}
-		}
-		break;
+	case 7: iterate_list(); break;
 	case 8: if (usable(0) && !st_destroyed[0] && !st_closed[0]) (void)qb_ipcs_dispatch_connection_request(10, POLLIN, conn[0]); break;
 	case 9: if (!svc_destroyed) { for (int i = 0; i < nconn; i++) kf_guard_redisconnect(i); svc_destroyed = 1; qb_ipcs_destroy(svc); } break;
 	}
